@@ -54,8 +54,18 @@ def fail(msg):
 #   drop     [params]                   parameters that must not be referenced (e.g. unused pointers)
 #   name     Lean name (default: the C name)
 #   nonneg   [params]                   nat mode: signed parameters assumed >= 0 (precondition, stated in the docstring)
+#   ranges   {param: (lo, hi)}          precondition lo <= param <= hi (stated in the docstring), used by the
+#                                        interval analysis (e.g. the 7-bit bilinear weights)
 #   ptrvals  [params]                   pointer parameters used only as integer values (`(size_t) p`)
 #   ret      "malloc"                   the function returns NULL or malloc (n): result (called : 0/1, n : size_t)
+#   loop     (i, width)                 the function is `for (i = 0; i < width; ++i) BODY` over independent
+#                                        pixels: BODY is translated, as a function of the memory operands
+#   mem      {"*(dest + i)": "d", ...}  memory operands (uint32_t) read -> arguments, assigned -> results
+#   null     [pointer params]           `if (p)` on these is FALSE (the variant called with p == NULL)
+#   calls    {C name: Lean name}        which translated variant a call refers to
+#   xmacros  True                       keep the macros of pixman-combine32.h that gen_combine32.py translates
+#                                        as calls of Pixman.Gen.Combine32Macros (nat mode)
+#   out kind "in"                       pointer parameter that is only read
 #   consts   {param: value}             specialise an integer parameter to a constant (e.g. the depth n)
 #   nonnull  [pointer params]           `if (p)` on these is TRUE (caller always passes an address)
 TARGETS = [
@@ -72,7 +82,10 @@ TARGETS = [
     dict(file="pixman/pixman-trap.c", func="_pixman_edge_multi_init", mode="int", structs={"e": "pixman_edge_t"},
          out={"stepx_p": "out", "dx_p": "out"}),
     # ---- pixman-inlines.h
+    dict(file="pixman/pixman-inlines.h", func="repeat", name="repeat_", mode="int", out={"c": "inout"}),
     dict(file="pixman/pixman-inlines.h", func="pixman_fixed_to_bilinear_weight", mode="int"),
+    dict(file="pixman/pixman-inlines.h", func="bilinear_interpolation", mode="nat",
+         ranges={"distx": (0, 127), "disty": (0, 127)}),
     dict(file="pixman/pixman-inlines.h", func="pad_repeat_get_scanline_bounds", mode="int",
          out={"width": "inout", "left_pad": "out", "right_pad": "out"}),
     # ---- pixman-private.h / pixman-utils.c
@@ -90,6 +103,41 @@ TARGETS = [
     dict(file="pixman/pixman.c", func="color_to_uint32", mode="nat", structs={"color": "pixman_color_t"}),
     dict(file="pixman/pixman-glyph.c", func="hash", name="glyph_hash", mode="nat", ptrvals=["font_key", "glyph_key"]),
 ]
+
+
+C32 = "pixman/pixman-combine32.c"
+MEM_U = {"*(src + i)": "src_i", "*(mask + i)": "mask_i", "*(dest + i)": "dest_i"}
+COMB_DROP = ["imp", "op", "dest", "src", "mask", "width"]
+
+
+def c32_targets():
+    t = []
+    # helpers
+    t.append(dict(file=C32, func="combine_mask_ca", mode="nat", xmacros=True, out={"src": "inout", "mask": "inout"}))
+    t.append(dict(file=C32, func="combine_mask_value_ca", mode="nat", xmacros=True, out={"src": "inout", "mask": "in"}))
+    t.append(dict(file=C32, func="combine_mask_alpha_ca", mode="nat", xmacros=True, out={"src": "in", "mask": "inout"}))
+    for v, key in (("m", "nonnull"), ("n", "null")):
+        t.append(dict(file=C32, func="combine_mask", name=f"combine_mask_{v}", mode="nat", xmacros=True,
+                      drop=["src", "mask", "i"], mem={"*(src + i)": "src_i", "*(mask + i)": "mask_i"}, **{key: ["mask"]}))
+    # unified combiners: one variant per mask == NULL / != NULL
+    for f in ("combine_src_u", "combine_over_u", "combine_over_reverse_u", "combine_in_u", "combine_in_reverse_u",
+              "combine_out_u", "combine_out_reverse_u", "combine_atop_u", "combine_atop_reverse_u", "combine_xor_u",
+              "combine_add_u", "combine_multiply_u"):
+        for v, key in (("m", "nonnull"), ("n", "null")):
+            if f == "combine_src_u" and v == "n":
+                continue        # memcpy
+            t.append(dict(file=C32, func=f, name=f"{f}_{v}", mode="nat", xmacros=True, drop=COMB_DROP, mem=MEM_U,
+                          loop=("i", "width"), calls={"combine_mask": f"combine_mask_{v}"}, **{key: ["mask"]}))
+    # component-alpha combiners (mask is never NULL)
+    for f in ("combine_src_ca", "combine_over_ca", "combine_over_reverse_ca", "combine_in_ca", "combine_in_reverse_ca",
+              "combine_out_ca", "combine_out_reverse_ca", "combine_atop_ca", "combine_atop_reverse_ca",
+              "combine_xor_ca", "combine_add_ca", "combine_multiply_ca"):
+        t.append(dict(file=C32, func=f, mode="nat", xmacros=True, drop=COMB_DROP, mem=MEM_U, loop=("i", "width"),
+                      nonnull=["mask"]))
+    return t
+
+
+TARGETS += c32_targets()
 
 LEAN_KEYWORDS = {"at", "from", "end", "open", "show", "have", "fun", "let", "then", "do", "in", "if", "else", "by",
                  "at", "with", "match", "where", "for", "def", "theorem", "instance", "structure", "class", "namespace",
@@ -114,7 +162,45 @@ CONFIG_H = """/* minimal configuration for tools/gen_cfuncs.py: what meson defin
 ASSERT_H = "#undef assert\n#define assert(x) __verif_assert(x)\n"
 
 
-def preprocess(repo, rel, scratch, defs=()):
+def combine32_macros(repo):
+    """name -> (params, inputs, outputs, is_stmt) of the macros that gen_combine32.py translates into
+    Pixman.Gen.Combine32Macros (same translator, same header text)"""
+    import gen_combine32 as g32
+    try:
+        macros, _ = g32.preprocess((Path(repo) / "pixman" / "pixman-combine32.h").read_text())
+        g = g32.Gen(macros)
+        out = {}
+        for n in g32.WANT_FUNC:
+            if n not in macros or macros[n][0] is None:
+                fail(f"pixman-combine32.h: macro {n} missing")
+            f = g.translate(n)
+            out[n] = (list(f.params), list(f.inputs), list(f.outputs), f.is_stmt)
+        return out
+    except g32.Fail as ex:
+        fail(f"pixman-combine32.h: {ex}")
+
+
+def stub_combine32_header(repo, scratch, names):
+    """copy of pixman-combine32.h without the #defines of `names` (function-like macros), so that
+    their uses survive preprocessing as calls"""
+    text = (Path(repo) / "pixman" / "pixman-combine32.h").read_text()
+    out, skipping = [], False
+    for line in text.split("\n"):
+        if skipping:
+            skipping = line.rstrip().endswith("\\")
+            continue
+        m = re.match(r"\s*#\s*define\s+(\w+)\(", line)
+        if m and m.group(1) in names:
+            skipping = line.rstrip().endswith("\\")
+            continue
+        out.append(line)
+    d = scratch / "c32"
+    d.mkdir(exist_ok=True)
+    (d / "pixman-combine32.h").write_text("\n".join(out))
+    return d
+
+
+def preprocess(repo, rel, scratch, defs=(), keep_macros=None):
     inc = scratch / "inc"
     if not inc.exists():
         inc.mkdir()
@@ -128,7 +214,12 @@ def preprocess(repo, rel, scratch, defs=()):
         fail(f"{rel}: no such file")
     cmd = ["gcc", "-E", "-P", "-DHAVE_CONFIG_H", "-DPIXMAN_VERIF", "-I", str(inc), "-I", str(Path(repo) / "pixman")]
     cmd += list(defs)
-    if rel.endswith(".h"):
+    if keep_macros is not None:
+        d = stub_combine32_header(repo, scratch, keep_macros)
+        cpy = d / Path(rel).name
+        cpy.write_text(src.read_text())
+        cmd.append(str(cpy))
+    elif rel.endswith(".h"):
         wrapper = scratch / ("wrap_" + Path(rel).name.replace(".h", ".c"))
         wrapper.write_text('#include <config.h>\n#include "pixman-private.h"\n#include "%s"\n' % Path(rel).name)
         cmd.append(str(wrapper))
@@ -717,6 +808,7 @@ class Translator:
         self.consts = dict(consts or {})
         self.const_types = {}
         self.ptrvals = set()
+        self.varrange = {}              # variable -> (lo, hi) known at this program point
         self.funcs = funcs or {}        # name -> FuncInfo of already translated functions
         self.vars = {}                  # visible variable -> CT
         self.defined = set()
@@ -724,13 +816,14 @@ class Translator:
         self.assigned = []
         self.mem = []                   # [(ast, varname)]
         self.tmp = 0
+        self.xmacros = {}               # macros kept as calls of Pixman.Gen.Combine32Macros
         self.uses_ok = []               # _ok conjuncts from calls: filled by statement translation
 
     # ---- helpers
     def lit(self, v):
         if self.nat:
             if v < 0:
-                fail(f"{self.tgt['func']}: negative constant in nat mode")
+                return f"NEGATIVE_CONSTANT_{-v}"       # fails the run if it survives into the output
             return str(v)
         return str(v) if v >= 0 else f"({v})"
 
@@ -770,6 +863,9 @@ class Translator:
         if name not in self.defined:
             fail(f"{self.tgt['func']}: {name} is read before it is assigned")
         ty = self.vars[name]
+        if name in self.varrange:
+            lo, hi = self.varrange[name]
+            return E(lname(name), ty, max(lo, ty.lo), min(hi, ty.hi))
         if self.nat and ty.signed:
             return E(lname(name), ty, 0, ty.hi)
         return E(lname(name), ty)
@@ -1093,6 +1189,9 @@ class Translator:
             return "False"
         if c == "False":
             return "True"
+        m = re.fullmatch(r"(.*) ≠ (\S+)", c)
+        if m and balanced(m.group(1)) and " then " not in c and "∧" not in c and "∨" not in c:
+            return f"{m.group(1)} = {m.group(2)}"
         return f"¬({c})"
 
     def boolof(self, c):
@@ -1129,13 +1228,43 @@ class Translator:
             return self.compare(e[1], self.ex(e[2]), self.ex(e[3]))
         if e[0] == "id" and e[1] in self.tgt.get("nonnull", []):
             return "True"
+        if e[0] == "id" and e[1] in self.tgt.get("null", []):
+            return "False"
         return self.truth(self.ex(e))
 
     def boolval(self, e):
         return self.boolof(self.cond(e))
 
+    def xmacro_args(self, name, args):
+        params, inputs, outputs, is_stmt = self.xmacros[name]
+        if len(args) != len(params):
+            fail(f"{self.tgt['func']}: macro {name} used with {len(args)} arguments")
+        amap = dict(zip(params, args))
+        outs = []
+        for o in outputs:
+            outs.append(self.lvalue(amap[o]))
+            if self.vars[outs[-1]] != UINT:
+                fail(f"{self.tgt['func']}: {name} assigns {outs[-1]}, which is not a uint32_t")
+            for q in params:
+                if q != o and q in inputs + outputs and mentions(amap[q], amap[o]):
+                    fail(f"{self.tgt['func']}: {name}: assigned argument also occurs in another argument")
+        ins = []
+        for q in inputs:
+            if side_effect(amap[q]):
+                fail(f"{self.tgt['func']}: side effect in a macro argument")
+            ins.append(atom(self.conv(self.ex(amap[q]), UINT, explicit=True).s))
+        return ins, outs
+
     def call_value(self, e):
         name, args = e[1], e[2]
+        if name in self.xmacros:
+            if not self.nat:
+                fail(f"{self.tgt['func']}: combine32 macros are available in nat mode only")
+            if self.xmacros[name][3]:
+                fail(f"{self.tgt['func']}: statement macro {name} used as a value")
+            ins, _ = self.xmacro_args(name, args)
+            return E(f"Combine32Macros.{name} " + " ".join(ins), UINT)
+        name = self.tgt.get("calls", {}).get(name, name)
         if name not in self.funcs:
             fail(f"{self.tgt['func']}: call of {name}, which is not a translated function")
         fi = self.funcs[name]
@@ -1165,8 +1294,13 @@ class Translator:
                 outmap[pn] = v
                 if pk == "inout":
                     vals[pn] = atom(self.read_var(v).s)
+            elif pk == "in":
+                if a[0] != "addr":
+                    fail(f"{self.tgt['func']}: argument for pointer parameter {pn} of {fi.cname} must be &variable")
+                vals[pn] = atom(self.conv(self.read_var(self.lvalue(a[1])), pt, explicit=True).s)
             elif pk == "drop":
-                pass
+                if fi.mem and a != ("id", pn):
+                    fail(f"{self.tgt['func']}: {fi.cname} reads memory through {pn}; the argument must be the caller's {pn}")
             elif pk == "const":
                 c = self.ex(a)
                 if c.const is None or pt.wrap(c.const) != fi.consts[pn]:
@@ -1185,6 +1319,12 @@ class Translator:
                             fail(f"{self.tgt['func']}: no member {outmap[o]}")
             else:
                 fail(f"{self.tgt['func']}: cannot pass parameter {pn} of {fi.cname} (kind {pk})")
+        for i in fi.inputs:
+            if i in fi.mem:
+                # memory operand of the callee = the caller's memory operand of the same name
+                if i not in [nm for _, nm in self.mem]:
+                    fail(f"{self.tgt['func']}: {fi.cname} reads memory operand {i}, unknown to the caller")
+                vals[i] = atom(self.read_var(i).s)
         ins = [vals[i] for i in fi.inputs]
         if fi.has_ok:
             self.uses_ok.append(f"{fi.lean}_ok " + " ".join(ins))
@@ -1205,6 +1345,7 @@ class FuncInfo:
         self.text = ""
         self.consts = {}
         self.param_outs = []
+        self.mem = []
 
 
 # =============================================================================== statements
@@ -1297,15 +1438,21 @@ class Body:
                 return
             if e[0] == "assign":
                 walk_e(e[3])
-                add(tr.lvalue(e[2]))
+                add(lv(e[2]))
                 return
             if e[0] in ("preinc", "postinc"):
-                add(tr.lvalue(e[2]))
+                add(lv(e[2]))
                 return
-            if e[0] == "call" and e[1] in tr.funcs:
-                for (pn, pk, pt), a in zip(tr.funcs[e[1]].cparams, e[2]):
+            if e[0] == "call" and e[1] in tr.xmacros:
+                params, inputs, outputs, _ = tr.xmacros[e[1]]
+                for q, a in zip(params, e[2]):
+                    if q in outputs:
+                        add(lv(a))
+                return
+            if e[0] == "call" and tr.tgt.get("calls", {}).get(e[1], e[1]) in tr.funcs:
+                for (pn, pk, pt), a in zip(tr.funcs[tr.tgt.get("calls", {}).get(e[1], e[1])].cparams, e[2]):
                     if pk in ("out", "inout") and a[0] == "addr":
-                        add(tr.lvalue(a[1]))
+                        add(lv(a[1]))
                     else:
                         walk_e(a)
                 return
@@ -1318,8 +1465,13 @@ class Body:
                     for y in x:
                         walk_e(y)
 
+        def lv(e):
+            if e[0] == "id" and e[1] in self._local:
+                return None
+            return tr.lvalue(e)
+
         def add(v):
-            if v not in acc and v not in self._local:
+            if v is not None and v not in acc and v not in self._local:
                 acc.append(v)
         if k == "decl":
             self._local.add(st[2])
@@ -1369,6 +1521,7 @@ class Body:
                     if v not in saved_vars:
                         del tr.vars[v]
                         tr.defined.discard(v)
+                        tr.varrange.pop(v, None)
                 return self.seq(rest, k)
             after.cheap = self.cheap_cont(rest, k)
             return self.seq(inner, after)
@@ -1422,6 +1575,24 @@ class Body:
             return self.if_stmt(st, rest, k)
         if kind == "while":
             return self.while_stmt(st, rest, k)
+        if kind == "for":
+            # `for (i = 0; i < width; ++i) BODY` over independent pixels: translate BODY, with the
+            # memory operands of the target's `mem` map as variables
+            lp = tr.tgt.get("loop")
+            if not lp:
+                fail(f"{fn}: for loop in a target without a `loop` description")
+            iv, bound = lp
+            init, c, step, body = st[1], st[2], st[3], st[4]
+            z = ("num", (0, "", False))
+            if init != ("assign", "=", ("id", iv), z) or c != ("bin", "<", ("id", iv), ("id", bound)) or \
+                    step not in (("preinc", "+", ("id", iv)), ("postinc", "+", ("id", iv))):
+                fail(f"{fn}: loop header is not `for ({iv} = 0; {iv} < {bound}; ++{iv})`")
+            if rest or getattr(tr, "seen_loop", False):
+                fail(f"{fn}: statements after the pixel loop / a second loop")
+            tr.seen_loop = True
+            if tr.assigned:
+                fail(f"{fn}: state assigned before the pixel loop")
+            return self.seq([body], k)
         fail(f"{fn}: statement {kind} not supported")
 
     def call_prefix(self, e):
@@ -1440,8 +1611,12 @@ class Body:
             return f"{pre} &&\n{body}"
         return body
 
-    def bind(self, v, rhs_s, rest, k, mark):
+    def bind(self, v, rhs_s, rest, k, mark, rng=None):
         tr = self.tr
+        if rng is not None and tr.tgt.get("ranges") and tr.vars[v].lo <= rng[0] and rng[1] <= tr.vars[v].hi:
+            tr.varrange[v] = rng
+        else:
+            tr.varrange.pop(v, None)
         if v not in tr.assigned:
             tr.assigned.append(v)
         tr.defined.add(v)
@@ -1462,7 +1637,8 @@ class Body:
             ty = tr.vars[v]
             if side_effect(rhs):
                 fail(f"{fn}: side effect inside the right-hand side of an assignment")
-            if rhs[0] == "call" and rhs[1] in tr.funcs and tr.funcs[rhs[1]].outs:
+            if rhs[0] == "call" and tr.tgt.get("calls", {}).get(rhs[1], rhs[1]) in tr.funcs and \
+                    tr.funcs[tr.tgt.get("calls", {}).get(rhs[1], rhs[1])].outs:
                 if op != "=":
                     fail(f"{fn}: compound assignment from a call with out-parameters")
                 return self.call_stmt(rhs, v, rest, k)
@@ -1472,14 +1648,34 @@ class Body:
                 cur = tr.read_var(v)
                 r = tr.ex(rhs)
                 val = tr.conv(tr.binary(op[:-1], cur, r), ty, explicit=True)
-            return self.bind(v, val.s, rest, k, mark)
+            return self.bind(v, val.s, rest, k, mark, (val.lo, val.hi))
         if e[0] in ("preinc", "postinc"):
             v = tr.lvalue(e[2])
             ty = tr.vars[v]
             cur = tr.read_var(v)
             val = tr.conv(tr.binary(e[1], cur, tr.konst(1, INT)), ty, explicit=True)
             return self.bind(v, val.s, rest, k, mark)
-        if e[0] == "call" and e[1] in tr.funcs:
+        if e[0] == "call" and e[1] in tr.xmacros:
+            if not tr.nat:
+                fail(f"{fn}: combine32 macros are available in nat mode only")
+            if not tr.xmacros[e[1]][3]:
+                fail(f"{fn}: expression macro {e[1]} used as a statement")
+            ins, outs = tr.xmacro_args(e[1], e[2])
+            app = f"Combine32Macros.{e[1]} " + " ".join(ins)
+            if len(outs) == 1:
+                return self.bind(outs[0], app, rest, k, mark)
+            tr.tmp += 1
+            t = f"r{tr.tmp}"
+            lines = [f"let {t} := {app}"]
+            n = len(outs)
+            for idx, v in enumerate(outs):
+                lines.append(f"let {lname(v)} := " + t + "".join(".2" for _ in range(idx)) + (".1" if idx < n - 1 else ""))
+                tr.varrange.pop(v, None)
+                tr.defined.add(v)
+                if v not in tr.assigned:
+                    tr.assigned.append(v)
+            return "\n".join(lines) + "\n" + self.seq(rest, k)
+        if e[0] == "call" and tr.tgt.get("calls", {}).get(e[1], e[1]) in tr.funcs:
             return self.call_stmt(e, None, rest, k)
         if e[0] == "cast" and e[1] == (None, 0):
             return self.seq(rest, k)
@@ -1488,7 +1684,7 @@ class Body:
     def call_stmt(self, call, target, rest, k):
         tr = self.tr
         fn = tr.tgt["func"]
-        fi = tr.funcs[call[1]]
+        fi = tr.funcs[tr.tgt.get("calls", {}).get(call[1], call[1])]
         if fi.mode != tr.mode:
             fail(f"{fn}: {fi.cname} is translated in mode {fi.mode}")
         mark = len(tr.uses_ok)
@@ -1514,6 +1710,7 @@ class Body:
             else:
                 val = proj
             lines.append(f"let {lname(v)} := {val}")
+            tr.varrange.pop(v, None)
             if v not in tr.assigned:
                 tr.assigned.append(v)
             tr.defined.add(v)
@@ -1587,11 +1784,12 @@ class Body:
         exits = contains_exit(A, self.ok) or contains_exit(Bs, self.ok)
         # continuation cheap to duplicate: nothing follows but building the result
         exits = exits or self.cheap_cont(rest, k)
-        state = (dict(tr.vars), set(tr.defined))
+        state = (dict(tr.vars), set(tr.defined), dict(tr.varrange))
 
         def restore():
             tr.vars = dict(state[0])
             tr.defined = set(state[1])
+            tr.varrange = dict(state[2])
         if exits:
             # continuation is placed in every branch that falls through
             ta = self.seq([A] + rest, k)
@@ -1650,6 +1848,7 @@ class Body:
                 if not W:
                     return self.seq(rest, k)
         for v in W:
+            tr.varrange.pop(v, None)
             if v in da and v in db:
                 tr.defined.add(v)
                 if v not in tr.assigned:
@@ -1770,8 +1969,10 @@ def translate_function(env, tgt, funcs):
             if nm in outs_cfg:
                 if nptr != 1 or not isinstance(ty, CT):
                     fail(f"{name}: out-parameter {nm} is not a pointer to an integer")
+                if tr.nat and ty.signed:
+                    fail(f"{name}: pointer to a signed integer in nat mode")
                 tr.vars[nm] = ty
-                if outs_cfg[nm] == "inout":
+                if outs_cfg[nm] in ("inout", "in"):
                     tr.defined.add(nm)
                 cparams.append((nm, outs_cfg[nm], ty))
                 continue
@@ -1811,11 +2012,26 @@ def translate_function(env, tgt, funcs):
                 tr.const_types[nm] = ty
                 cparams.append((nm, "const", ty))
                 continue
-            if tr.nat and ty.signed and nm not in tgt.get("nonneg", []):
+            if tr.nat and ty.signed and nm not in tgt.get("nonneg", []) and \
+                    not (nm in tgt.get("ranges", {}) and tgt["ranges"][nm][0] >= 0):
                 fail(f"{name}: signed parameter {nm} in nat mode (list it under `nonneg` to assume {nm} >= 0)")
             tr.vars[nm] = ty
             tr.defined.add(nm)
+            if nm in tgt.get("ranges", {}):
+                lo, hi = tgt["ranges"][nm]
+                if not (ty.lo <= lo <= hi <= ty.hi):
+                    fail(f"{name}: range given for {nm} is outside its type")
+                tr.varrange[nm] = (lo, hi)
             cparams.append((nm, "val", ty))
+        for cexpr, nm in tgt.get("mem", {}).items():
+            pp = Parser(lex(cexpr), env)
+            ast = pp.expr()
+            if pp.i != len(pp.t):
+                fail(f"{name}: memory operand {cexpr!r} not understood")
+            tr.mem.append((ast, nm))
+            tr.vars[nm] = UINT
+            tr.defined.add(nm)
+        tr.xmacros = tgt.get("_xmacros", {})
         return cparams
 
     def run(ok_mode, final_outs):
@@ -1850,26 +2066,35 @@ def translate_function(env, tgt, funcs):
     b = Body(probe, False, lambda v: "0")
     saved_ret = probe.ret
     b.seq([blk], lambda: "0")
-    final_outs = [nm for nm, k, _ in cparams if k in ("out", "inout")]
+    final_outs = [nm for nm, k, _ in cparams if k in ("out", "inout") and (k == "out" or nm in probe.assigned)]
+    cparams = [(nm, ("in" if k == "inout" and nm not in probe.assigned else k), t) for nm, k, t in cparams]
+    final_outs += [nm for _, nm in probe.mem if nm in probe.assigned]
     fi.param_outs = list(final_outs)
+    fi.mem = [nm for _, nm in probe.mem]
     fi.consts = dict(tgt.get("consts", {}))
     for nm, k, _ in cparams:
         if k == "struct":
             final_outs += [v for v in probe_param_vars(probe, nm, env) if v in probe.assigned]
-    tr, cparams, param_vars, text = run(False, final_outs)
+    adj = {nm: k for nm, k, _ in cparams}
+    tr, cparams2, param_vars, text = run(False, final_outs)
     has_assert = "__verif_assert" in btext or any(funcs[c].has_ok for c in funcs if re.search(r"\b" + re.escape(c) + r"\s*\(", btext))
     # inputs: value params + inout + struct members that exist, in declaration order; only those used
+    if "NEGATIVE_CONSTANT" in text:
+        fail(f"{name}: a negative constant survives in nat mode")
     used = set(re.findall(r"[A-Za-z_]\w*", text))
     inputs = []
     for nm, k, ty in cparams:
         if k == "val":
             inputs.append(nm)
-        elif k == "inout":
+        elif k in ("inout", "in"):
             inputs.append(nm)
         elif k == "struct":
             for v in param_vars:
                 if v.startswith(nm + "_") and lname(v) in used and v not in inputs:
                     inputs.append(v)
+    for _, nm in tr.mem:
+        if lname(nm) in used:
+            inputs.append(nm)
     oktext = None
     if has_assert:
         tr2, _, _, oktext = run(True, final_outs)
@@ -1893,7 +2118,8 @@ def translate_function(env, tgt, funcs):
     sig_c = ", ".join([f"{v} : {param_vars[v].cname()}" for v in inputs] +
                       [f"{c} = {v} (specialised)" for c, v in tgt.get("consts", {}).items()])
     res_c = ", ".join((["malloc called : 0/1, size : uint64_t"] if ret == "malloc" else [f"return : {ret.cname()}"] if ret is not None else []) + [f"{o} : {param_vars[o].cname()}" for o in final_outs])
-    pre = "".join(f"  Precondition: {v} >= 0." for v in tgt.get("nonneg", []))
+    pre = "".join(f"  Precondition: {v} >= 0." for v in tgt.get("nonneg", [])) + \
+          "".join(f"  Precondition: {lo} <= {v} <= {hi}." for v, (lo, hi) in tgt.get("ranges", {}).items())
     doc = f"/-- `{tgt['file']}:{name}` ({fi.mode} mode).  Arguments: {sig_c}.  Result: ({res_c}).{pre} -/"
     out = f"{doc}\ndef {fi.lean} {args} : {rty} :=\n{Body.ind(None, text)}\n"
     if has_assert:
@@ -1910,12 +2136,13 @@ def probe_param_vars(tr, nm, env):
 
 # =============================================================================== main
 HEADER = """import Pixman.Lemmas.CSem
+import Pixman.Gen.Combine32Macros
 /-! REGENERATED on every run by tools/gen_cfuncs.py from the preprocessed C sources — never edit.
 One definition per C function / statement block; the docstring names `file:function`, the C type of
 every argument and result.  Integer semantics: see tools/gen_cfuncs.py and Pixman/Lemmas/CSem.lean. -/
 set_option linter.unusedVariables false
 namespace Pixman.Gen.CFuncs
-open Pixman.CSem
+open Pixman.CSem Pixman.Gen
 
 """
 
@@ -1928,10 +2155,16 @@ def main():
         envs = {}
         funcs = {}
         chunks = []
+        xm = None
         for tgt in TARGETS:
-            key = (tgt["file"], tuple(tgt.get("defs", ())))
+            key = (tgt["file"], tuple(tgt.get("defs", ())), bool(tgt.get("xmacros")))
+            if tgt.get("xmacros"):
+                if xm is None:
+                    xm = combine32_macros(repo)
+                tgt = dict(tgt, _xmacros=xm)
             if key not in envs:
-                envs[key] = Env(preprocess(repo, tgt["file"], scratch, tgt.get("defs", ())))
+                envs[key] = Env(preprocess(repo, tgt["file"], scratch, tgt.get("defs", ()),
+                                           keep_macros=set(xm) if tgt.get("xmacros") else None))
             env = envs[key]
             fi = translate_function(env, tgt, funcs)
             funcs[tgt.get("name", tgt["func"])] = fi
